@@ -47,7 +47,8 @@ class C17(Prop):
     ID = "C17"
     RULE = ("every reduced-form indexed grammar over non-terminals S,A,B, indices f,g, one terminal with <= r rules, "
             "modulo renaming of A,B and f,g; each x every permutation of the rule list x optim 0..8 (random.shuffle "
-            "replaced by a fixed rotation), queried twice and again after remove_useless_rules(); intersection with 12 "
+            "replaced by a fixed rotation), queried twice and again after remove_useless_rules(), also with the start variable called A (another non-terminal called S) and with "
+            "every rule listed twice; intersection with 12 "
             "regular languages given as Regex, DFA and epsilon-NFA; non-trivial = language non-empty")
     BOUNDS = "<= 3 rules (4 thorough, rule orders: given, reversed, rotations); intersection on <= 2 rules (3 thorough, strided)"
     CLAUSES = ["C17.is_empty", "C17.is_empty.repeat", "C17.remove_useless_rules.is_empty", "C17.intersection.is_empty",
